@@ -344,6 +344,19 @@ def match_wildcard(name: Optional[str], wildcard: str) -> bool:
         return name == wildcard[3:]
 
 
+def decimal_remainder(dividend: Union[int, Decimal], divisor: Union[int, Decimal]) -> Decimal:
+    """
+    The exact remainder of the division truncated toward zero of two integer or decimal
+    values, also when the quotient has more digits than the precision of the current
+    decimal context (where the operator % raises InvalidOperation).
+    """
+    op1, op2 = Decimal(dividend), Decimal(divisor)
+    with localcontext() as ctx:
+        ctx.prec = len(op1.as_tuple().digits) + len(op2.as_tuple().digits) + \
+            abs(op1.adjusted()) + abs(op2.adjusted()) + 2
+        return op1 % op2
+
+
 JSON_ESCAPE_PATTERN = re.compile(r'\\(?:u[0-9a-fA-F]{4}|["\\/bfnrt])')
 
 
